@@ -177,10 +177,12 @@ func init() {
 }
 
 func (cmd commandFeat) Execute(conn *Conn, param string) {
+	// featCmds is shared by all connections: the reply is built from a copy
+	list := featCmds
 	if conn.tlsConfig != nil {
-		featCmds += " AUTH TLS\n PBSZ\n PROT\n"
+		list += " AUTH TLS\n PBSZ\n PROT\n"
 	}
-	conn.writeMessageMultiline(211, fmt.Sprintf(feats, featCmds))
+	conn.writeMessageMultiline(211, fmt.Sprintf(feats, list))
 }
 
 // cmdCdup responds to the CDUP FTP command.
